@@ -181,11 +181,26 @@ func c16Exec(run *ev.Run, c ev.Case) {
 			var shared *c16Conn
 			for i := b.From; i < b.To; i++ {
 				n := r.Intn(21)
+				if i%25 == 7 {
+					// long lists: 16..64 chunks (the list index is 6 bits wide: at most 1024 bytes)
+					n = 50 + r.Intn(150)
+				}
 				recs := c16RandRecords(r, n)
 				data := refbmc.EncodeSuiteRecords(recs)
+				for len(data) > 1023 {
+					recs = recs[:len(recs)-1]
+					data = refbmc.EncodeSuiteRecords(recs)
+				}
+				if i%25 == 7 && i%50 == 7 {
+					// exact multiples of 256 bytes and their neighbours
+					for len(data) > 256*(1+i%3)+i%2 && len(recs) > 0 {
+						recs = recs[:len(recs)-1]
+						data = refbmc.EncodeSuiteRecords(recs)
+					}
+				}
 				// steer the total length onto chunk boundaries and their neighbours
 				target := []int{0, 15, 16, 17, 31, 32, 33, 47, 48, 49, 63, 64, 65, 79, 80, 81}[i%16]
-				if i%3 != 0 {
+				if i%3 != 0 && i%25 != 7 {
 					for tries := 0; tries < 200 && len(data) != target; tries++ {
 						if len(data) > target {
 							if len(recs) == 0 {
